@@ -186,6 +186,10 @@ impl Allocator {
     }
 
     fn manage_state(gc: &mut BoaGc) {
+        #[cfg(boa_verif)]
+        if verif::stress_tick() {
+            Collector::collect(gc);
+        }
         if gc.runtime.bytes_allocated > gc.config.threshold {
             Collector::collect(gc);
 
@@ -543,6 +547,74 @@ pub fn force_collect() {
 
 #[cfg(test)]
 mod test;
+
+/// Verification hooks (only compiled with `--cfg boa_verif`).
+#[cfg(boa_verif)]
+pub mod verif {
+    use super::BOA_GC;
+    use std::cell::Cell;
+
+    thread_local!(static STRESS_EVERY: Cell<u64> = const { Cell::new(0) });
+    thread_local!(static STRESS_COUNT: Cell<u64> = const { Cell::new(0) });
+    thread_local!(static ALLOCS: Cell<u64> = const { Cell::new(0) });
+
+    /// Heap statistics of the current thread.
+    #[derive(Debug, Clone, Copy, PartialEq, Eq, Default)]
+    pub struct Stats {
+        /// Number of live strong boxes.
+        pub strongs: usize,
+        /// Number of live ephemeron boxes.
+        pub ephemerons: usize,
+        /// Number of live weak map boxes.
+        pub weak_maps: usize,
+        /// Bytes accounted as allocated.
+        pub bytes: usize,
+        /// Number of collections run so far.
+        pub collections: usize,
+        /// Number of allocations seen by `manage_state` so far.
+        pub allocations: u64,
+    }
+
+    /// Returns the heap statistics of the current thread.
+    #[must_use]
+    pub fn stats() -> Stats {
+        BOA_GC.with(|gc| {
+            let gc = gc.borrow();
+            Stats {
+                strongs: gc.strongs.len(),
+                ephemerons: gc.weaks.len(),
+                weak_maps: gc.weak_maps.len(),
+                bytes: gc.runtime.bytes_allocated,
+                collections: gc.runtime.collections,
+                allocations: ALLOCS.with(Cell::get),
+            }
+        })
+    }
+
+    /// Forces a collection on every `n`-th allocation (`0` disables).
+    pub fn set_stress(n: u64) {
+        STRESS_EVERY.with(|c| c.set(n));
+        STRESS_COUNT.with(|c| c.set(0));
+    }
+
+    pub(crate) fn stress_tick() -> bool {
+        ALLOCS.with(|c| c.set(c.get().wrapping_add(1)));
+        let every = STRESS_EVERY.with(Cell::get);
+        if every == 0 {
+            return false;
+        }
+        STRESS_COUNT.with(|c| {
+            let n = c.get() + 1;
+            if n >= every {
+                c.set(0);
+                true
+            } else {
+                c.set(n);
+                false
+            }
+        })
+    }
+}
 
 /// Returns `true` is any weak maps are currently allocated.
 #[cfg(test)]
